@@ -151,13 +151,14 @@ def main(argv=None):
         from vlib import shims
         st = shims.selftest()
         hmod = importlib.import_module('harness.' + prop.lower())
-        sanity = hmod.SANITY() if hasattr(hmod, 'SANITY') else 0
+        sanity_calls = list(getattr(hmod, 'SANITY', []))
     except Exception:
         traceback.print_exc()
         print('HARNESS-ERROR property=%s (import/sanity failed; no verdict)' % prop)
         return 2
     from vlib.h import collect
     obs = collect(hmod)
+    rows_sanity = []
     if a.cap:
         for o in obs:
             for k in o['cond_timeout']:
@@ -191,6 +192,24 @@ def main(argv=None):
     violations = []
     known_lines = []
     n_replays = 0
+    # harness sanity inputs: concrete native runs of the harness functions on the repo's own vectors / boundaries.
+    # They validate the harness; a failing one is a concrete, already-replayed counterexample.
+    sanity = 0
+    ns = dict(vars(hmod))
+    for call in sanity_calls:
+        try:
+            okv = bool(eval(call, ns))
+        except Exception as e:                      # noqa
+            okv = False
+        sanity += 1
+        if not okv:
+            fname = call.split('(')[0].strip()
+            sob = next((o for o in obs if o['name'] == fname), None) or {
+                'id': 'sanity', 'name': fname, 'module': hmod.__name__, 'desc': 'harness sanity input', 'known': None}
+            row = {'obligation': 'sanity:' + call, 'desc': 'concrete harness input', 'bounds': 'single input', 'engine': 'native',
+                   'wall_s': 0.0}
+            handle_failure(prop, sob, call, {'reproduces': True}, known, violations, known_lines, row)
+            rows_sanity.append(row)
     for j in jobs:
         ob = j.ob
         row = {'obligation': j.label, 'desc': ob['desc'], 'bounds': ob['bounds'], 'engine': ob['engine'],
@@ -251,7 +270,7 @@ def main(argv=None):
             row['status'] = 'inconclusive'
             row['why'] = 'reachability twin not refuted: harness may be vacuous'
 
-    main_rows = [row for j, row in zip(jobs, rows) if j.kind != 'twin']
+    main_rows = [row for j, row in zip(jobs, rows) if j.kind != 'twin'] + rows_sanity
     decided = sum(1 for r in main_rows if r['status'] in ('decided', 'known-finding'))
     inconcl = [r for r in main_rows if r['status'] == 'inconclusive']
     for l in known_lines:
